@@ -465,7 +465,7 @@ pub fn run(tier: Tier) -> i32 {
     rep.add(sweep("out/enqueue_call", nf * (max - 7), &cfg, |i, s| outbound_case(fills[(i % nf) as usize], (i / nf) as usize + 8, false, s)));
     rep.add(sweep("out/send_error", nf * (max - 1), &cfg, |i, s| outbound_case(fills[(i % nf) as usize], (i / nf) as usize + 2, true, s)));
     // the production limit, with the library as it ships (main build), in a child process
-    let child = xplore::report::verif_root().join(".build/main/release/zcheck");
+    let child = xplore::report::build_dir("main").join("release/zcheck");
     let out = std::process::Command::new(&child).arg("limits-prod").output();
     let parsed: Option<Value> = out.ok().filter(|o| o.status.success()).and_then(|o| String::from_utf8(o.stdout).ok()).and_then(|s| s.lines().last().and_then(|l| serde_json::from_str(l).ok()));
     match parsed {
